@@ -47,6 +47,34 @@ WSDL = 'spyne.interface.wsdl.wsdl11:Wsdl11'
 
 
 # ---------------------------------------------------------------- R1
+def _module_locks(node):
+    """Names bound to Lock()/RLock() at the top of the module of ``node``."""
+    cur = node
+    while getattr(cur, '_parent', None) is not None:
+        cur = cur._parent
+    cached = getattr(cur, '_lock_names', None)
+    if cached is None:
+        cached = set()
+        for st in getattr(cur, 'body', []):
+            if isinstance(st, ast.Assign) and isinstance(
+                    st.value, ast.Call) and call_name(st.value) in (
+                    'Lock', 'RLock'):
+                cached |= {t.id for t in st.targets
+                           if isinstance(t, ast.Name)}
+        try:
+            cur._lock_names = cached
+        except Exception:
+            pass
+    return cached
+
+
+def _is_lock(text, node):
+    """A lock by what it is bound to, or (attributes) by its name."""
+    low = text.lower()
+    return 'mtx' in low or 'lock' in low or 'mutex' in low or \
+        text in _module_locks(node)
+
+
 def lock_regions(fnode):
     """[(lock text, set of statement nodes inside the region, acquire stmt)]
     for `with L:` and try: L.acquire() ... finally: L.release()."""
@@ -55,7 +83,7 @@ def lock_regions(fnode):
         if isinstance(n, ast.With):
             for item in n.items:
                 t = unparse(item.context_expr)
-                if 'mtx' in t.lower() or 'lock' in t.lower():
+                if _is_lock(t, n):
                     inside = set()
                     for s in n.body:
                         inside.update(ast.walk(s))
@@ -778,8 +806,7 @@ def rule_r6(prog, res):
     for f in w.methods.values():
         for node in walk_no_defs(f.node):
             if isinstance(node, ast.With) and any(
-                    'mtx' in unparse(i.context_expr).lower() or
-                    'lock' in unparse(i.context_expr).lower()
+                    _is_lock(unparse(i.context_expr), node)
                     for i in node.items):
                 n += 1
     res.floor('R6', 'acquisitions of the build lock', n, 1)
@@ -883,7 +910,7 @@ def _enclosing_lock(node, stop, locks):
     while p_ is not None and p_ is not stop:
         if isinstance(p_, ast.With) and any(
                 unparse(it.context_expr) in locks or
-                unparse(it.context_expr).split('.')[-1].endswith('lock')
+                _is_lock(unparse(it.context_expr).split('.')[-1], p_)
                 for it in p_.items):
             return p_
         p_ = getattr(p_, '_parent', None)
